@@ -6,6 +6,7 @@
 package tl
 
 import (
+	"crypto/rand"
 	"math/big"
 
 	"github.com/xelaj/go-dry"
@@ -25,7 +26,7 @@ func NewInt128() *Int128 {
 // NewInt128 creates int128 with random value
 func RandomInt128() *Int128 {
 	i := &Int128{Int: big.NewInt(0)}
-	i.SetBytes(dry.RandomBytes(Int128Len))
+	i.SetBytes(secureRandomBytes(Int128Len))
 	return i
 }
 
@@ -66,8 +67,18 @@ func NewInt256() *Int256 {
 // NewInt256 creates int256 with random value
 func RandomInt256() *Int256 {
 	i := &Int256{big.NewInt(0)}
-	i.SetBytes(dry.RandomBytes(Int256Len))
+	i.SetBytes(secureRandomBytes(Int256Len))
 	return i
+}
+
+// secureRandomBytes reads random bytes from the cryptographic random source of the OS: these numbers are
+// used as nonces of key exchange, so they must be unpredictable (math/rand isn't)
+func secureRandomBytes(size int) []byte {
+	res := make([]byte, size)
+	if _, err := rand.Read(res); err != nil {
+		panic(err) // if OS can't give random bytes, there is nothing to do
+	}
+	return res
 }
 
 // func reflectIsInt256(v reflect.Value) bool {
